@@ -44,3 +44,10 @@ func init() {
 		Real:  clusterReal, Stub: clusterStub,
 		Assume: []string{"token-shape enumeration (algorithms, malformed tokens) is input generation and only sampled", "one bubble clock: no skew between master and volume server; skew is not emulated"}}
 }
+
+func init() {
+	props["C35"] = &propCfg{Engine: "cluster", Variants: []string{""}, Quick: 4000, Thorough: 400000, Chunk: 200, QuickWall: 100, ThorWall: 1500,
+		Rule:  "each run = 8-40 steps over the real client location cache (wdclient vidMap inside a never-connected MasterClient): add / remove notifications for 1-3 volumes on 2-5 servers in mixed data centers, full lookups compared with the reference set (each location once, same-data-center first, not-found when empty), and 2-3 reader actors whose lookup is split into 'obtain the location list' and 'consume it' steps so that updates land in between; non-trivial = at least one split read; distinct = distinct abstract traces",
+		Real:  []string{"weed/wdclient vidMap (addLocation, deleteLocation, GetLocations, LookupVolumeServerUrl) via MasterClient"}, Stub: []string{"the master notification stream: notifications are applied by the plan through thin wrappers"},
+		Assume: []string{"interleaving granularity is one call; a reader holds the slice the API returned", "the data-race clause is not decided", "the stream reconnect variant (real master) is not part of this check"}}
+}
